@@ -742,6 +742,33 @@ theorem selSumFrom_ok_iff (sel : Nat → Option Rat) (acc : Rat) (atoms : List N
       · rintro ⟨h, rfl⟩; exact ⟨h, by ring⟩
       · rintro ⟨h, rfl⟩; exact ⟨h, by ring⟩
 
+/-! ### the estimate as a sum, reorderings -/
+
+/-- T1 with the constituents' values named by a function `h`. -/
+theorem estimate_sum (get : Corr → Val) (reg : List S) (lib : Library N S) (gs : List (N × Rat)) (s : S)
+    (e : Estimator) (he : estimate reg lib gs s = .ok e) (h : N → Rat)
+    (hv : ∀ g ∈ gs, ∃ c, corrOf lib s g.1 = some c ∧ get c = .ok (h g.1)) :
+    wsum get e.correlations = .ok ((gs.map fun g => g.2 * h g.1).sum) := by
+  have ht : Terms lib s gs e.correlations := by
+    obtain ⟨_, _, hc⟩ := (estimate_ok_iff reg lib gs s e).mp he
+    exact collect_ok lib s gs _ (construct_ok lib s gs e hc).1
+  rw [wsum_ok_iff, terms_allOk_iff lib s get gs _ ht, terms_specSum lib s get gs _ ht]
+  refine ⟨fun g hg => ?_, ?_⟩
+  · obtain ⟨c, hc, hw⟩ := hv g hg; exact ⟨c, _, hc, hw⟩
+  · unfold specEstimate
+    congr 1
+    apply List.map_congr_left
+    intro g hg
+    obtain ⟨c, hc, hw⟩ := hv g hg
+    simp [valOf, hc, valD, hw]
+
+/-- the terms of two successful estimates of reordered mappings are reorderings of each other -/
+theorem perm_terms (reg : List S) (lib : Library N S) {gs gs' : List (N × Rat)} (s : S) (e e' : Estimator)
+    (hp : gs.Perm gs') (he : estimate reg lib gs s = .ok e) (he' : estimate reg lib gs' s = .ok e') :
+    e'.correlations.Perm e.correlations ∧ e'.name = e.name ∧ e'.range = e.range := by
+  obtain ⟨e'', he'', h⟩ := estimate_perm reg lib s e hp he
+  rw [he'] at he''; cases he''; exact h
+
 /-! ### linearity of the specification sum -/
 
 theorem specEstimate_append (lib : Library N S) (s : S) (get : Corr → Val) (g1 g2 : List (N × Rat)) :
